@@ -53,7 +53,9 @@ def _case(draw):
     faults = []
     for _ in range(nf):
         kind = draw(st.sampled_from(FAULT_KINDS))
-        base = draw(gen.tame_base.filter(lambda b: gen.servable_name(b)))
+        base = draw(st.one_of(gen.tame_base, gen.tame_base, gen.hostile_name(max_size=6),
+                              st.sampled_from(["50%off", "100%", "%s", "%(x)s", "a%", "{0}", "{x}", "$HOME", "`id`"]))
+                    .filter(lambda b: gen.servable_name(b)))
         # names that make a particular handler look at the entry first (gophermap, HTML title, mailbox, PYG, TAL, ZIP,
         # compressed) and dot-names (link files of the UMN handler)
         base = draw(st.sampled_from(["", "", "."])) + base + draw(st.sampled_from(
